@@ -345,6 +345,83 @@ def pair (c : Config) (cbHas : Bool) (io oobFlag authReq : Nat) (tk : Tk) (u : U
       let r := lescRest c.io alg u
       { sel := .lesc alg rsp, rest := r, status := lescStatus c.mgr alg r.done }
 
+/-! ### several pairings on one connection object -/
+
+/-- pairing state between two pairing attempts, as far as the next Pairing Request and the status
+    function read it: `idle`, `pairing_completed`, or stuck inside an exchange (the user never
+    answered) -/
+inductive Phase where
+  | idle | completed | pending
+deriving DecidableEq, Repr
+
+/-- the members of the connection data that `local_device_pairing_status` reads -/
+structure Conn where
+  phase         : Phase
+  legacyAlg     : LegacyAlg   -- legacy_security_connection_data::algorithm_, written by the request handler
+  lescAlg       : LescAlg     -- lesc_security_connection_data::algorithm_, written by the request handler
+  pairingStatus : Status      -- security_connection_data::pairing_status_, written at completion only
+deriving DecidableEq, Repr
+
+-- src: link_layer.hpp `connection_data_ = connection_data_t()`: value-initialised, state_( idle )
+def Conn.fresh : Conn := ⟨.idle, .justWorks, .justWorks, .noKey⟩
+
+-- src: security_connection_data.hpp: local_device_pairing_status of the three connection data classes
+def Conn.reported (m : Mgr) (k : Conn) : Status :=
+  if k.phase ≠ .completed then .noKey
+  else match m with
+    | .legacy   => if k.legacyAlg = .justWorks then .unauthenticatedKey else .authenticatedKey
+    | .lesc     => if k.lescAlg = .numericComparison then .authenticatedKey else .unauthenticatedKey
+    | .combined => k.pairingStatus
+
+/-- where an attempt that was started in `idle` leaves the pairing state -/
+def phaseAfter (r : Rest) : Phase :=
+  if r.done then .completed else if r.fail = .dhkeyWait then .pending else .idle
+
+-- src: the request handlers write the selected algorithm (`state.pairing_algorithm( … )`);
+--      security_connection_data::legacy_pairing_completed / lesc_pairing_completed write
+--      pairing_status_ (Just Works → unauthenticated_key, everything else → authenticated_key)
+def connAfter (k : Conn) (o : Outcome) : Conn :=
+  match o.sel with
+  | .rej _ => k
+  | .legacy alg _ =>
+      { k with phase := phaseAfter o.rest, legacyAlg := alg,
+               pairingStatus := if o.rest.done then
+                   (if alg = .justWorks then .unauthenticatedKey else .authenticatedKey)
+                 else k.pairingStatus }
+  | .lesc alg _ =>
+      { k with phase := phaseAfter o.rest, lescAlg := alg,
+               pairingStatus := if o.rest.done then
+                   (if alg = .justWorks then .unauthenticatedKey else .authenticatedKey)
+                 else k.pairingStatus }
+
+/-- one more pairing attempt on an existing connection: new connection data, what the central
+    observed, how often the OOB callback was asked.
+    src: every request handler: `state.state() != idle` → Pairing Failed unspecified_reason (8) and
+    error_reset(), before anything else is looked at -/
+def stepPair (c : Config) (k : Conn) (cbHas : Bool) (io oobFlag authReq : Nat) (tk : Tk) (u : User) :
+    Conn × Outcome × Nat :=
+  if k.phase ≠ .idle then
+    ({ k with phase := .idle },
+     { sel := .rej 8, status := .noKey,
+       rest := { done := false, asked := false, shown := false, kbd := false, fail := .req 8 } }, 0)
+  else
+    let o := pair c cbHas io oobFlag authReq tk u
+    (connAfter k o, o, oobQueries c)
+
+/-- operations of a history on one connection -/
+inductive HOp where
+  | pair (cbHas : Bool) (io oobFlag authReq : Nat) (tk : Tk) (u : User)
+  | peerFail     -- the central sends Pairing Failed: unknown opcode → error_response → idle
+  | reset        -- new connection: `connection_data_ = connection_data_t()`
+deriving DecidableEq, Repr
+
+def stepH (c : Config) (k : Conn) : HOp → Conn
+  | .pair cb io oob auth tk u => (stepPair c k cb io oob auth tk u).1
+  | .peerFail => { k with phase := .idle }
+  | .reset => Conn.fresh
+
+def runH (c : Config) (h : List HOp) : Conn := h.foldl (stepH c) Conn.fresh
+
 /-- configurations that exist: `lesc_security_manager` and `security_manager` do not compile with
     `pairing_keyboard` (io_capabilities_matrix::sm_pairing_request_yes_no needs a member the
     keyboard option does not have) -/
